@@ -64,6 +64,11 @@ def run_case(c):
             from urllib.parse import quote
             scen.add_trashed(W, td, n + suf, quote(pv, '/'), '2021-01-01T00:00:00', payload='file', tag=loc)
             ents.append((td, n + suf, loc))
+    W.dir('/home/u/elsewhere')
+    for n in c['names']:
+        W.link('/home/u/w2/' + n, '/home/u/elsewhere/zz')          # what lives at the original path today is irrelevant
+    W.dir('/home/u/w-real')
+    W.link('/home/u/w', '/home/u/w-real')                            # ... and so is what its parent directory resolves to
     with cell.Sandbox(W.spec()) as sb:
         before = sb.snapshot()
         r = sb.run(['trash-rm', c['pat']], cwd='/')
